@@ -290,6 +290,7 @@ class FacadeUnit(Unit):
         d["fill"] = U(8)
         d["resp"] = Bytes(12, mutable=False)
         d["decoded_truth"] = Flag()  # whether the decoder's result (an uninterpreted value here) is empty or not
+        d["devicetype"] = U(5)  # the peripheral device type the attached device reported: any
         return d
 
     def structured_args(self, case, a):
@@ -305,6 +306,7 @@ class FacadeUnit(Unit):
         del w.trace[:]
         w.decoded_truth = a.get("decoded_truth")
         dev = RecordingDevice(C.table(case["set"]), w, fails=case["fails"], fill=a.get("fill", 0), resp=a.get("resp"))
+        dev.devicetype = a.get("devicetype")
         self.dev = dev
         s = object.__new__(S)
         self.scsi = s
